@@ -1222,6 +1222,15 @@ func (f *VFSFile) rebuildIndex(ctx context.Context, infos []*ltx.FileInfo, targe
 
 	f.mu.Lock()
 	defer f.mu.Unlock()
+	// A view that serves from its hydrated copy and is moved forward (ResetTime
+	// outside time travel): bring the copy along before the position moves, or
+	// fall back to index reads. Done under f.mu like the poll's ApplyUpdates.
+	if target == nil && f.hydrator != nil && f.hydrator.Complete() && pos.TXID > f.pos.TXID {
+		if err := f.hydrator.CatchUp(ctx, f.pos.TXID, pos.TXID); err != nil {
+			f.logger.Error("failed to bring hydrated file to the rebuilt position, disabling hydrated reads", "error", err)
+			f.hydrator.Disable()
+		}
+	}
 	f.index = index
 	f.pending = make(map[uint32]ltx.PageIndexElem)
 	f.pendingReplace = false
